@@ -52,6 +52,8 @@ type ExhOutcome struct {
 	Scans      int
 	Creates    int
 	Removes    int
+	WalkAlarms map[string]int
+	NotPublic  int
 	Fails      []*Failure
 	FailProgs  []*Program
 }
@@ -79,6 +81,13 @@ func RunExh(id string, c ExhCase, h *Hooks) ExhOutcome {
 		out.Scans += res.Scans
 		out.Creates += res.Creates
 		out.Removes += res.Removes
+		out.NotPublic += res.NotPublic
+		for k, n := range res.WalkAlarms {
+			if out.WalkAlarms == nil {
+				out.WalkAlarms = map[string]int{}
+			}
+			out.WalkAlarms[k] += n
+		}
 		if res.Creates >= 2 || res.Removes >= 1 {
 			out.NonTrivial++
 		}
@@ -309,7 +318,18 @@ func Run(r *report.Run) int {
 	exhOut := make([]ExhOutcome, len(cases))
 	Parallel(len(cases), func(i int) { exhOut[i] = RunExh(id, cases[i], nil) })
 	var seqs, exOps, exNT int64
+	walkAlarms := map[string]int{}
+	r.Count("walk_alarms_rejudged_through_public_api", 0)
+	r.Count("walk_alarms_not_visible_through_public_api", 0)
+	noteAlarms := func(alarms map[string]int, notPublic int) {
+		for k, n := range alarms {
+			walkAlarms[k] += n
+			r.Count("walk_alarms_rejudged_through_public_api", int64(n))
+		}
+		r.Count("walk_alarms_not_visible_through_public_api", int64(notPublic))
+	}
 	for i, o := range exhOut {
+		noteAlarms(o.WalkAlarms, o.NotPublic)
 		r.Eval(cases[i].Name, o.NonTrivial > 0)
 		seqs += int64(o.Sequences)
 		exOps += int64(o.Ops)
@@ -378,6 +398,7 @@ func Run(r *report.Run) int {
 		r.Count("nodes_created", int64(res.Creates))
 		r.Count("nodes_removed", int64(res.Removes))
 		r.Count("stale_cursor_ops_that_took_effect", int64(res.Stales))
+		noteAlarms(res.WalkAlarms, res.NotPublic)
 		if res.Removes > 0 {
 			r.Count("programs_with_node_removal", 1)
 		}
@@ -391,6 +412,7 @@ func Run(r *report.Run) int {
 		}
 	}
 	r.Set("configurations_run", cfgSeen)
+	r.Set("walk_alarms_by_class", walkAlarms)
 
 	Report(r, id, found, nil)
 
